@@ -233,7 +233,8 @@ def build_gateset(idle=True, style="direct"):
 PULSE_MODULE_SOURCE = '''\
 # scratch pulse-definition module generated by the simulator
 import sys
-sys.path[:0] = [{verif!r}]
+if {verif!r} not in sys.path:
+    sys.path.append({verif!r})
 from sim import gateset as _gs
 _cb = _gs.PULSE_TOP_CALLBACK
 if _cb is not None:
